@@ -3,6 +3,8 @@ Output-file operation logs of the packers (C14; reusable by C13): build the LD_P
 (harness/shim_oplog.c), run a packer under it, parse the log, replay prefixes.
 
 A log is a list of ops:  ("W", offset, bytes) | ("T", length) | ("X", text)   (plus the number of "O" open events).
+`parse_log_ex` also returns the events of a *failing* run: failed calls (F), failed allocation (M), unlink of the output
+path (U), allocation count (A).
 """
 import os, subprocess
 import vlib
@@ -17,18 +19,36 @@ def build_shim(ctx):
     return out
 
 
-def parse_log(path):
-    ops, opens = [], 0
+def parse_log_ex(path):
+    """-> dict: ops, opens, fails [(ops logged before, call index, errno, text)], allocfail (index|None), unlinked (bool),
+    ops_after_unlink, allocs (count|None)"""
+    out = {"ops": [], "opens": 0, "fails": [], "allocfail": None, "unlinked": False, "ops_after_unlink": 0, "allocs": None}
+    ops = out["ops"]
     if not os.path.exists(path):
-        return ops, opens
+        return out
     with open(path) as f:
         for line in f:
             t = line.split()
             if not t:
                 continue
             if t[0] == "O":
-                opens += 1
-            elif t[0] == "W":
+                out["opens"] += 1
+                continue
+            if t[0] == "F":
+                out["fails"].append((len(ops), int(t[1]), int(t[2]), " ".join(t[3:])))
+                continue
+            if t[0] == "M":
+                out["allocfail"] = int(t[1])
+                continue
+            if t[0] == "U":
+                out["unlinked"] = True
+                continue
+            if t[0] == "A":
+                out["allocs"] = int(t[1])
+                continue
+            if out["unlinked"]:
+                out["ops_after_unlink"] += 1
+            if t[0] == "W":
                 data = b"" if t[3] == "-" else bytes.fromhex(t[3])
                 if len(data) != int(t[2]):
                     raise ValueError("oplog: bad W line")
@@ -37,13 +57,21 @@ def parse_log(path):
                 ops.append(("T", int(t[1])))
             else:
                 ops.append(("X", " ".join(t[1:])))
-    return ops, opens
+    return out
 
 
-def run_logged(shim, cmd, out_path, log_path, stdin=None, kill_at=None, fail_at=None, timeout=120, env=None):
-    """run `cmd` (an un-sanitized packer writing `out_path`) under the shim; returns CompletedProcess"""
+def parse_log(path):
+    x = parse_log_ex(path)
+    return x["ops"], x["opens"]
+
+
+def run_logged(shim, cmd, out_path, log_path, stdin=None, kill_at=None, fail_at=None, timeout=120, env=None, extra=None):
+    """run `cmd` (an un-sanitized packer writing `out_path`) under the shim; returns CompletedProcess.
+    `extra`: further OPLOG_* variables (OPLOG_LIMIT, OPLOG_ALLOC_FAIL, OPLOG_ALLOC_COUNT, OPLOG_KILL_AT_UNLINK)"""
     e = dict(env or os.environ)
     e.update({"LD_PRELOAD": str(shim), "OPLOG_PATH": str(out_path), "OPLOG_LOG": str(log_path)})
+    if extra:
+        e.update({k: str(v) for k, v in extra.items()})
     if kill_at is not None:
         e["OPLOG_KILL_AT"] = str(kill_at)
     if fail_at is not None:
@@ -81,7 +109,20 @@ def prefixes(ops):
         yield k + 1, bytes(buf)
 
 
-def driver_lines(ops):
+def driver_lines(ops, fails=()):
+    """the log as input of `sqfsmodel c14`; `fails` (from parse_log_ex) puts an `F` marker where a call failed"""
+    out = []
+    marks = {}
+    for f in fails:
+        marks.setdefault(f[0], []).append("F %d %d %s" % (f[1], f[2], f[3]))
+    for i, op in enumerate(ops):
+        out += marks.get(i, [])
+        out += _driver_lines([op])
+    out += marks.get(len(ops), [])
+    return out if fails else _driver_lines(ops)
+
+
+def _driver_lines(ops):
     out = []
     for op in ops:
         if op[0] == "W":
